@@ -280,7 +280,7 @@ def traffic_pair(kind, k):
         if kd != "INF":
             continue
         if last_rx[fr.src] is not None:
-            turn[fr.src] = max(turn[fr.src], int(round((fr.time - last_rx[fr.src]) * 1E6)))
+            turn[fr.src] = max(turn[fr.src], int(round((fr.time - last_rx[fr.src]) * 13.56E6)))
             last_rx[fr.src] = None
         if not more:
             last_rx[fr.dst] = fr.time
@@ -291,10 +291,16 @@ def traffic_pair(kind, k):
         key = ("IT" if fr.src == "I" else "TI", -1 if size is None else size, fr.brty)
         dep[key] = dep.get(key, 0) + 1
     ev.append(dict(a="Dep", frames=[dict(dir=d, size=s, brty=b, n=n) for (d, s, b), n in sorted(dep.items())]))
+    ev.append(dict(a="Turn", side="I", cyc=turn["I"]))
+    ev.append(dict(a="Turn", side="T", cyc=turn["T"]))
+    tr["errors"] = app["i"].errors + app["t"].errors
+    if "closing" not in shared:
+        # the link broke before the application decided to close it: nothing after that is judged
+        ev.append(dict(a="Broken", llc=sum(1 for e in ev if e["a"] == "Llc")))
+        tr["errors"] = []
+        return tr
     ev.append(dict(a="Waits", side="I", cyc=sorted(waits["I"])))
     ev.append(dict(a="Waits", side="T", cyc=sorted(waits["T"])))
-    ev.append(dict(a="Turn", side="I", us=turn["I"]))
-    ev.append(dict(a="Turn", side="T", us=turn["T"]))
     # what the applications received
     for src, dst, d in (("i", "t", "IT"), ("t", "i", "TI")):
         sent = [tf.pattern(tag, n) for tag, n in app[src].ui_sent]
@@ -305,7 +311,6 @@ def traffic_pair(kind, k):
         got = app[dst].i_rcvd
         ev.append(dict(a="Data", dir=d, kind="I", sent=len(sent), rcvd=len(got), ok=got == sent[:len(got)],
                        problems=len(app[src].errors)))
-    tr["errors"] = app["i"].errors + app["t"].errors
     return tr
 
 
@@ -352,7 +357,11 @@ def classify(tr, v):
             if act == "Llc":
                 what = ":" + (e["t"] + ("(%s)" % "+".join(sorted({p["t"] for p in e["inner"]})) if e["inner"] else e["t"]))
             return "Obey:%s:%s%s:exceeds-receiver-limit-by-%d" % (f["layer"], f["dir"], what, f["size"] - f["limit"])
-        if name in ("Timeouts", "LtoKept"):
+        if name == "RwtKept":
+            return K_RWT
+        if name == "LtoKept":
+            return K_LTO % e.get("side")
+        if name == "Timeouts":
             return "%s:%s" % (name, e.get("side"))
         if name == "Delivered":
             return "Delivered:%s:%s" % (e.get("kind"), e.get("dir"))
@@ -400,7 +409,9 @@ def mutate_traffic_selftest(tr):
 
 
 WITNESSES = ["W_Psl", "W_NoPsl", "W_Down", "W_Acm", "W_MaxMiu", "W_ConnLim", "W_Full"]
-INVS = ["Obey", "BitRate", "Timeouts", "LtoKept", "Delivered"]
+INVS = ["Obey", "BitRate", "Timeouts", "LtoKept", "RwtKept", "Delivered", "LinkUp"]
+K_RWT = "RwtKept:T:target-run-loop-pause-exceeds-the-RWT-it-announced"
+K_LTO = "LtoKept:%s:run-loop-idle-pause-exceeds-the-LTO-it-announced"
 
 
 def full_traffic(kind, k, seed, quick):
@@ -461,8 +472,11 @@ def run(tier, seed):
             ck.violation("traffic:application-call-failed:%s" % tr["errors"][0].split(":")[0],
                          "configuration %s: %s" % (tr["id"], tr["errors"][:3]),
                          replay=dict(kind=tr["const"]["kind"], k=tr["const"]["k"], full=True))
+        flagged = [inv for inv in INVS if tr["id"] + "#" + inv in verdicts]
         for inv in INVS:
             w = verdicts.get(tr["id"] + "#" + inv)
+            if inv == "LinkUp" and ("RwtKept" in flagged or "LtoKept" in flagged):
+                continue        # the link broke because a pause exceeded the announced RWT / LTO: reported there
             if w is not None:
                 ck.violation(classify(tr, w), "configuration %s: event %d (%s) %s ; cfg=%s ; event=%s" % (
                     tr["id"], w[1], w[2], json.dumps(w[3], default=list)[:600], json.dumps(tr["const"]["cfg"]),
